@@ -7,6 +7,8 @@
 #include "STPSolver.h"
 #include "Converter.h"
 
+#include <common/ApiException.h>
+
 namespace opensmt {
 
 static SolverDescr descr_stp_solver("STP Solver", "Solver for Simple Temporal Problem (Difference Logic)");
@@ -22,6 +24,10 @@ template<class T>
 typename STPSolver<T>::ParsedPTRef STPSolver<T>::parseRef(PTRef ref) const {
     // inequalities are in the form (c <= (x + (-1 * y)))
     // due to how LALogic creates terms, we won't ever encounter <, >, or >= inequalities
+    // Anything else is outside difference logic and must be rejected, not silently misread
+    auto notDifferenceLogic = [&]() {
+        throw ApiException("Atom is not a difference logic constraint: " + logic.pp(ref));
+    };
     assert(logic.isLeq(ref));
     Pterm &leq = logic.getPterm(ref);
     assert(logic.isNumConst(leq[0]));
@@ -36,20 +42,22 @@ typename STPSolver<T>::ParsedPTRef STPSolver<T>::parseRef(PTRef ref) const {
         Pterm &rhsPt = logic.getPterm(rhs);
         PTRef mul{};  // (-1 * y) term
         if (logic.isPlus(rhs)) {  // usual DL inequality with two variables
+            if (rhsPt.size() != 2) { notDifferenceLogic(); }
             uint8_t ix = logic.isNumVar(rhsPt[0]) ? 0 : 1;
             uint8_t iy = 1 - ix;
             x = rhsPt[ix];
             mul = rhsPt[iy];
+            if (not logic.isNumVar(x)) { notDifferenceLogic(); }
         } else { // RHS contains just a negative variable
             x = PTRef_Undef;
             mul = rhs;
         }
 
-        assert(logic.isTimes(mul));
+        if (not logic.isTimes(mul)) { notDifferenceLogic(); }
         Pterm &mulPt = logic.getPterm(mul);
-        assert(logic.isNumConst(mulPt[0]) && logic.getNumConst(mulPt[0]) == -1);
+        if (not (logic.isNumConst(mulPt[0]) && logic.getNumConst(mulPt[0]) == -1)) { notDifferenceLogic(); }
         y = mulPt[1];
-        assert(logic.isNumVar(y));
+        if (not logic.isNumVar(y)) { notDifferenceLogic(); }
     }
     return ParsedPTRef{x, y, Converter<T>::getValue(c)};
 }
@@ -62,9 +70,8 @@ void STPSolver<T>::declareAtom(PTRef tr) {
     // to some constant
 
     if (isInformed(tr)) { return; }
+    auto parsed = parseRef(tr); // throws for atoms outside difference logic; nothing is recorded for them
     setInformed(tr);
-
-    auto parsed = parseRef(tr);
 
     // find out if edge already exists (created as part of a negation)
     VertexRef x = mapper.getVertRef(parsed.x);
